@@ -101,6 +101,9 @@ def c19_initialisers(ctx, prog):
         if not F.file.endswith("reproc.cpp"):
             continue
         cvars = {x["name"] for x in F.walk() if x["k"] == "VarDecl" and any(a in (x.get("t") or "") for a in C_AGGREGATES if a)}
+        # ... and C aggregates a helper receives by reference or pointer (a fix-up pass after the conversion)
+        cvars |= {p_["name"] for p_ in F.params if any(a in (p_.get("t") or "") for a in C_AGGREGATES if a)
+                  and ("&" in (p_.get("t") or "") or "*" in (p_.get("t") or "")) and "const" not in (p_.get("t") or "").split("reproc_")[0]}
         for node in F.walk():
             if node["k"] == "BinaryOperator" and node["op"] == "=":
                 lp = chain(node["c"][0])
@@ -485,7 +488,24 @@ def c19_containers(ctx, prog):
                             written = L.add(written, bound)
                         else:
                             written = L.add(written, {1: 1})
-            ok = stg_size is not None and written is not None and L.geq(stg_size, written)
+            # block copies into the string: counted as written; and they may read no more than the element's size() characters
+            # (an element type such as string_view guarantees nothing about the byte after its last character)
+            overread = []
+            for n in F.walk():
+                if n["k"] == "CallExpr" and n.get("callee") in ("memcpy", "memmove", "strncpy") and written is not None:
+                    ln = L.lin(n["c"][3])
+                    if ln is None:
+                        written = None
+                        break
+                    written = L.add(written, ln)
+                    src = expr_str(cstrip(n["c"][2]))
+                    if src.endswith(".data()"):
+                        owner = src[:-len(".data()")]
+                        if not L.geq({owner + ".size()": 1}, ln):
+                            overread.append("%s: %s bytes read from %s" % (expr_str(n)[:50], L.show(ln), src))
+            ok = stg_size is not None and written is not None and L.geq(stg_size, written) and bool(written)
+            ctx.ob("C19.F6", q + ": source bytes", "no more than size() characters are read from a container element (the terminator is "
+                   "written by the conversion itself)", not overread, {"over-reads": overread[:3]})
             ctx.ob("C19.F6", q + ": strings", "each string is allocated for all characters written into it ('=' and terminator included)",
                    ok, {"allocated": L.show(stg_size), "written": L.show(written)}, nontrivial=True)
             # entries stored at a monotonically increasing index, terminator last
